@@ -2,7 +2,26 @@ PROPERTY = {
     'id': 'C05',
     'contract_modules': ['doctest_example', 'checker'],
     'functions': ['xdoctest.utils.util_str:strip_ansi', 'xdoctest.checker:remove_blankline_marker', 'xdoctest.checker:_check_match',
-                  'xdoctest.checker:normalize.norm_repr', 'xdoctest.checker:normalize', 'xdoctest.checker:check_output#relation', 'xdoctest.checker:_ellipsis_match'],
+                  'xdoctest.checker:normalize.norm_repr', 'xdoctest.checker:normalize', 'xdoctest.checker:check_output#relation',
+                  'xdoctest.checker:_ellipsis_match'],
     'lemmas': ['placed_mono'],
-    'clauses': {'P': [], 'T': []}, 'explanation': 'C05 (under construction)',
+    'extra': ['bounded.c05_relation.run'],
+    'clauses': {
+        'P': ['check_output(got, want, rs) == S.match_def: True for an empty want, True for identical texts, else _check_match of the two '
+              'normalised texts; _check_match == exact equality, or (only under ELLIPSIS) the wildcard relation of C06',
+              'normalize == the documented pipeline, step by step and flag by flag (S.norm_got / S.norm_want): ANSI codes, u/U then b/B string '
+              'prefixes, <BLANKLINE> markers in the WANT only and only unless DONT_ACCEPT_BLANKLINE, trailing blanks per line, rstrip, '
+              'carriage-return lines, whitespace collapsing under NORMALIZE_WHITESPACE or IGNORE_WHITESPACE, whitespace deletion under '
+              'IGNORE_WHITESPACE, quote stripping (got against want, then want against the new got) under NORMALIZE_REPR and only when it '
+              'creates a match; a dropped, reordered, mis-guarded or swapped step fails a postcondition',
+              'every regular expression involved is pinned: re.sub / re.match with a given (pattern, replacement, flags) is one function symbol, '
+              'so code and specification agree only if they use the same pattern; strip_ansi and remove_blankline_marker against their patterns'],
+        'B': ['monotonicity of each leniency, exactness with all leniencies off and "identical texts match", on the REAL check_output over '
+              '(got, want) built from <= 2 of 12 tokens plus their quoted forms x all 32 flag settings (quick: 25 s budget); shows the open '
+              'findings F7, F7b (leniencies are not monotone under NORMALIZE_REPR) and F12 (carriage-return lines are invisible)'],
+        'T': ['the matching engine of re (each pattern is an uninterpreted function); str.split/join/splitlines/rstrip models'],
+        'N/A': ['that two different regular expressions denote the same language is not decided: an equivalent rewrite of a pattern is '
+                'reported as a failed obligation without a failing input'],
+    },
+    'explanation': 'C05: the real normalisation pipeline equals the specification pipeline term by term; relational clauses by a bounded stand-in.',
 }
